@@ -44,6 +44,8 @@ type c19Node struct {
 	SharedOrders bool `json:"shared_orders,omitempty"`
 	// OrderLike: an unknown keyword with an order-like name holding a list of this node's property
 	// names (in Extra): it says nothing about how "properties" is written.
+	// Required: a subset of the property names (it has no say in the order of "properties")
+	Required      []string `json:"required,omitempty"`
 	OrderLike     string   `json:"order_like,omitempty"`
 	OrderLikeList []string `json:"order_like_list,omitempty"`
 }
@@ -99,6 +101,9 @@ func (n *c19Node) build() *jsonschema.Schema {
 		} else {
 			s.PropertyOrder = append([]string{}, n.Order...)
 		}
+	}
+	if len(n.Required) > 0 {
+		s.Required = append([]string{}, n.Required...)
 	}
 	if n.OrderLike != "" {
 		l := make([]any, len(n.OrderLikeList))
@@ -438,6 +443,10 @@ func genC19Node(t *rapid.T, depth int) *c19Node {
 		if len(perm) > 0 {
 			n.Order = append(n.Order, perm[rapid.IntRange(0, len(perm)-1).Draw(t, "dupi")])
 		}
+	}
+	if len(names) >= 2 && rapid.IntRange(0, 2).Draw(t, "hasrequired") == 0 {
+		perm := rapid.Permutation(append([]string{}, names...)).Draw(t, "reqperm")
+		n.Required = perm[:rapid.IntRange(1, len(perm)-1).Draw(t, "reqlen")]
 	}
 	if len(names) >= 2 && rapid.IntRange(0, 3).Draw(t, "orderlike") == 0 {
 		n.OrderLike = rapid.SampledFrom([]string{"propertyOrdering", "propertyOrder", "x-propertyOrder", "x-order", "ui:order", "displayOrder", "order", "PropertyOrder", "propertyorder"}).Draw(t, "orderlikekw")
